@@ -721,16 +721,21 @@ class RedlineEngine:
                 return True
 
         if op == EditOperationType.INSERTION:
-            anchor_run = self.mapper.get_insertion_anchor(start_idx)
+            final_new_text = edit.new_text or ""
+            anchor_run, insert_before = self.mapper.get_insertion_point(start_idx)
+            if insert_before and start_idx != 0:
+                # Block-level insertions (new paragraphs / headings) are placed after the
+                # anchor's paragraph, so they keep anchoring on the preceding paragraph.
+                _, first_style = self._parse_markdown_style(re.split(r"[\r\n]+", final_new_text)[0])
+                if first_style or re.search(r"[\r\n]", final_new_text):
+                    anchor_run, insert_before = self.mapper.get_insertion_anchor(start_idx), False
             if not anchor_run:
                 return False
 
             parent = anchor_run._element.getparent()
             index = parent.index(anchor_run._element)
 
-            final_new_text = edit.new_text or ""
-
-            if start_idx == 0:
+            if insert_before:
                 ins_elem = self.track_insert(final_new_text, anchor_run=anchor_run, comment=edit.comment)
                 if ins_elem is not None:
                     parent.insert(index, ins_elem)
